@@ -102,7 +102,13 @@ def check_instances(instances):
             problems.append(f'a cover with {k - 1} boxes exists: {smaller}')
         r2, other = ('unsat', None)
         if not problems:
-            r2, other = coverlib.other_min_cover_exists(k, covers, names, ranges, pts, F, CARE)
+            if k >= 7:
+                r2, other = 'skipped', None
+            else:
+                r2, other = coverlib.other_min_cover_exists(k, covers, names, ranges, pts, F, CARE, timeout_ms=20000)
+            if r2 not in ('sat', 'unsat'):
+                # same question as a selection problem over the explicitly enumerated maximal boxes
+                r2, other = coverlib.other_min_cover_exists_setcover(k, covers, names, ranges, pts, F, CARE)
             q['complete:' + r2] = 1
             if r2 == 'sat':
                 ps = coverlib.check_cover(other, names, ranges, pts, F, CARE)
@@ -151,8 +157,14 @@ def replay(payload):
 
 def run(tier, seed, t0, only=None):
     insts = c09.instances_for(tier, seed + 1)
+    five = [i for i in insts if i['decl'] == 'b5']
+    insts = [i for i in insts if i['decl'] != 'b5']
+    grid64 = [i for i in insts if i['kind'] == 'mask' and i['decl'] in ('g333', 'm')]
+    insts = [i for i in insts if not (i['kind'] == 'mask' and i['decl'] in ('g333', 'm'))]
     if tier == 'quick':
-        insts = insts[::2]
+        insts = insts[::2] + five[:200] + grid64
+    else:
+        insts = insts + five[:4000] + grid64
     size = 30 if tier == 'quick' else 200
     tasks = []
     for i in range(0, len(insts), size):
